@@ -13,6 +13,9 @@
     mixed        mixed_sequential_sum_product with `num_segments`
     scanConst    the branch taken when `trans` does not mention `time` (squared per round,
                  declines on an odd tail because Cat refuses parts without the time input)
+
+  Model/C10/Sarkka.lean: sarkka_bilmes_product / naive_sarkka_bilmes_product (names, period, slices, blocks,
+  window chain) and eager_markov_product.
 -/
 namespace FV.C10
 
